@@ -82,6 +82,21 @@ func (pConn *PFCPConn) handleSessionEstablishmentRequest(msg message.Message) (m
 			ie.CauseNoResourcesAvailable)
 	}
 
+	// a session that is not accepted gives back everything acquired for it so far
+	abortSession := func(err error, cause uint8) (message.Message, error) {
+		if upf.ippool != nil {
+			// an address may or may not have been allocated yet
+			if deallocErr := upf.ippool.DeallocIP(session.localSEID); deallocErr != nil {
+				logger.PfcpLog.Debugln("no UE IP to release for the rejected session:", deallocErr)
+			}
+		}
+
+		releaseAllocatedTEIDs(upf.fteidGenerator, &session)
+		pConn.RemoveSession(session)
+
+		return errProcessReply(err, cause)
+	}
+
 	addPDRs := make([]pdr, 0, MaxItems)
 	addFARs := make([]far, 0, MaxItems)
 	addQERs := make([]qer, 0, MaxItems)
@@ -89,14 +104,14 @@ func (pConn *PFCPConn) handleSessionEstablishmentRequest(msg message.Message) (m
 	for _, cPDR := range sereq.CreatePDR {
 		var p pdr
 		if err = p.parsePDR(cPDR, session.localSEID, pConn.appPFDs, upf.ippool); err != nil {
-			return errProcessReply(err, ie.CauseRequestRejected)
+			return abortSession(err, ie.CauseRequestRejected)
 		}
 
 		if p.UPAllocateFteid {
 			var fteid uint32
 			fteid, err = pConn.upf.fteidGenerator.Allocate()
 			if err != nil {
-				return errProcessReply(err, ie.CauseNoResourcesAvailable)
+				return abortSession(err, ie.CauseNoResourcesAvailable)
 			}
 			p.tunnelTEID = fteid
 			p.tunnelTEIDMask = 0xFFFFFFFF
@@ -112,7 +127,7 @@ func (pConn *PFCPConn) handleSessionEstablishmentRequest(msg message.Message) (m
 	for _, cFAR := range sereq.CreateFAR {
 		var f far
 		if err = f.parseFAR(cFAR, session.localSEID, upf, create); err != nil {
-			return errProcessReply(err, ie.CauseRequestRejected)
+			return abortSession(err, ie.CauseRequestRejected)
 		}
 
 		f.fseidIP = fseidIP
@@ -123,7 +138,7 @@ func (pConn *PFCPConn) handleSessionEstablishmentRequest(msg message.Message) (m
 	for _, cQER := range sereq.CreateQER {
 		var q qer
 		if err = q.parseQER(cQER, session.localSEID); err != nil {
-			return errProcessReply(err, ie.CauseRequestRejected)
+			return abortSession(err, ie.CauseRequestRejected)
 		}
 
 		q.fseidIP = fseidIP
@@ -147,8 +162,7 @@ func (pConn *PFCPConn) handleSessionEstablishmentRequest(msg message.Message) (m
 
 	cause := upf.SendMsgToUPF(upfMsgTypeAdd, session.PacketForwardingRules, updated)
 	if cause == ie.CauseRequestRejected {
-		pConn.RemoveSession(session)
-		return errProcessReply(ErrWriteToDatapath,
+		return abortSession(ErrWriteToDatapath,
 			ie.CauseRequestRejected)
 	}
 
